@@ -302,4 +302,174 @@ theorem zipWith_pw_weights {β : Type} (g : β → Cell → XVal) (c : WT) (v : 
     | nil => simp at hl
     | cons b v => simp at hl; simp [ih v hl]
 
+/-! ### padding relation (every tensor extended by `p` trailing cells) -/
+
+/-- `x'` is `x` with `p` extra trailing cells: arbitrary values for a regular tensor, weight-0 cells (with arbitrary
+    content) for a weighted tensor. -/
+def PadRel (p : Nat) : MT → MT → Prop
+  | .plain v, .plain v' => ∃ u, u.length = p ∧ v' = v ++ u
+  | .wt c, .wt c' => ∃ d, d.length = p ∧ (∀ x ∈ d, x.2 = false) ∧ c' = c ++ d
+  | _, _ => False
+
+def PadRes (p : Nat) : Except Err MT → Except Err MT → Prop
+  | .ok x, .ok y => PadRel p x y
+  | .error e, .error e' => e = e'
+  | _, _ => False
+
+theorem PadRel.length {p : Nat} {x x' : MT} (h : PadRel p x x') : x'.length = x.length + p := by
+  cases x <;> cases x' <;> simp_all [PadRel, MT.length]
+  · obtain ⟨u, hu, rfl⟩ := h; simp [hu]
+  · obtain ⟨d, hd, _, rfl⟩ := h; simp [hd]
+
+theorem zipWith_append_same' {α β γ : Type} (f : α → β → γ) (a a' : List α) (b b' : List β) (h : a.length = b.length) :
+    List.zipWith f (a ++ a') (b ++ b') = List.zipWith f a b ++ List.zipWith f a' b' :=
+  List.zipWith_append h
+
+theorem all_false_map_snd (d : WT) (h : ∀ x ∈ d, x.2 = false) : d.map Prod.snd = List.replicate d.length false := by
+  induction d with
+  | nil => rfl
+  | cons x d ih =>
+    simp only [List.map_cons, List.length_cons, List.replicate_succ]
+    rw [h x (List.mem_cons_self), ih (fun y hy => h y (List.mem_cons_of_mem _ hy))]
+
+theorem binop_padRel (p : Nat) (f : XVal → XVal → XVal) {x x' y y' : MT}
+    (hx : PadRel p x x') (hy : PadRel p y y') : PadRes p (binop f x y) (binop f x' y') := by
+  have hlx := hx.length
+  have hly := hy.length
+  unfold binop
+  rw [hlx, hly]
+  by_cases hl : x.length = y.length
+  · have hl' : x.length + p = y.length + p := by omega
+    simp only [ne_eq, hl, not_true_eq_false, if_false]
+    cases x with
+    | plain v =>
+      cases x' with
+      | wt _ => simp [PadRel] at hx
+      | plain v' =>
+        obtain ⟨u, hu, rfl⟩ := hx
+        cases y with
+        | plain w =>
+          cases y' with
+          | wt _ => simp [PadRel] at hy
+          | plain w' =>
+            obtain ⟨u', hu', rfl⟩ := hy
+            simp only [MT.length] at hl
+            simp only [PadRes, PadRel]
+            exact ⟨List.zipWith f u u', by simp [hu, hu'], List.zipWith_append hl⟩
+        | wt c =>
+          cases y' with
+          | plain _ => simp [PadRel] at hy
+          | wt c' =>
+            obtain ⟨d, hd, hdf, rfl⟩ := hy
+            simp only [MT.length] at hl
+            simp only [PadRes, PadRel]
+            refine ⟨List.zipWith (fun v (c : Cell) => (f v c.1, c.2)) u d, by simp [hu, hd], ?_, List.zipWith_append hl⟩
+            intro z hz
+            obtain ⟨i, hi, rfl⟩ := List.getElem_of_mem hz
+            simp only [List.getElem_zipWith]
+            exact hdf _ (List.getElem_mem _)
+    | wt c =>
+      cases x' with
+      | plain _ => simp [PadRel] at hx
+      | wt c' =>
+        obtain ⟨d, hd, hdf, rfl⟩ := hx
+        cases y with
+        | plain w =>
+          cases y' with
+          | wt _ => simp [PadRel] at hy
+          | plain w' =>
+            obtain ⟨u', hu', rfl⟩ := hy
+            simp only [MT.length] at hl
+            simp only [PadRes, PadRel]
+            refine ⟨List.zipWith (fun (c : Cell) v => (f c.1 v, c.2)) d u', by simp [hu', hd], ?_, List.zipWith_append hl⟩
+            intro z hz
+            obtain ⟨i, hi, rfl⟩ := List.getElem_of_mem hz
+            simp only [List.getElem_zipWith]
+            exact hdf _ (List.getElem_mem _)
+        | wt e =>
+          cases y' with
+          | plain _ => simp [PadRel] at hy
+          | wt e' =>
+            obtain ⟨d', hd', hdf', rfl⟩ := hy
+            simp only [MT.length] at hl
+            have hw : ((c ++ d).map Prod.snd = (e ++ d').map Prod.snd) ↔ (c.map Prod.snd = e.map Prod.snd) := by
+              simp only [List.map_append, all_false_map_snd d hdf, all_false_map_snd d' hdf', hd, hd']
+              constructor
+              · intro h; exact List.append_cancel_right h
+              · intro h; rw [h]
+            by_cases hwe : c.map Prod.snd = e.map Prod.snd
+            · simp only [if_pos hwe, if_pos (hw.mpr hwe), PadRes, PadRel]
+              refine ⟨List.zipWith (fun (c d : Cell) => (f c.1 d.1, c.2)) d d', by simp [hd, hd'], ?_, List.zipWith_append hl⟩
+              intro z hz
+              obtain ⟨i, hi, rfl⟩ := List.getElem_of_mem hz
+              simp only [List.getElem_zipWith]
+              exact hdf _ (List.getElem_mem _)
+            · simp only [if_neg hwe, if_neg (fun h => hwe (hw.mp h)), PadRes]
+  · have hl' : ¬ (x.length + p = y.length + p) := by omega
+    simp [hl, PadRes]
+
+theorem mapOp_padRel (p : Nat) (f : XVal → XVal) (fill : Option XVal) {x x' : MT}
+    (hx : PadRel p x x') : PadRel p (mapOp f fill x) (mapOp f fill x') := by
+  cases x with
+  | plain v => cases x' with
+    | plain v' =>
+      obtain ⟨u, hu, rfl⟩ := hx
+      exact ⟨u.map f, by simp [hu], by simp⟩
+    | wt _ => simp [PadRel] at hx
+  | wt c => cases x' with
+    | plain _ => simp [PadRel] at hx
+    | wt c' =>
+      obtain ⟨d, hd, hdf, rfl⟩ := hx
+      refine ⟨d.map (fun d => (f (Cell.filledOpt fill d), d.2)), by simp [hd], ?_, by simp⟩
+      intro z hz
+      simp only [List.mem_map] at hz
+      obtain ⟨y, hy, rfl⟩ := hz
+      exact hdf y hy
+
+theorem weightedOp_padRel (p : Nat) {x x' : MT} (hx : PadRel p x x') :
+    PadRel p (weightedOp x) (weightedOp x') := by
+  cases x with
+  | plain v => cases x' with
+    | plain v' => simpa [weightedOp] using hx
+    | wt _ => simp [PadRel] at hx
+  | wt c => cases x' with
+    | plain _ => simp [PadRel] at hx
+    | wt c' =>
+      obtain ⟨d, hd, hdf, rfl⟩ := hx
+      exact ⟨weightedValue d, by simp [weightedValue, hd], by simp [weightedValue]⟩
+
+theorem reweight_padRel (p : Nat) {x x' y y' : MT} (hx : PadRel p x x') (hy : PadRel p y y') :
+    PadRes p (reweight x y) (reweight x' y') := by
+  cases x with
+  | wt c => cases x' with
+    | plain _ => simp [PadRel] at hx
+    | wt c' => simpa [reweight, PadRes] using hx
+  | plain v => cases x' with
+    | wt _ => simp [PadRel] at hx
+    | plain v' =>
+      obtain ⟨u, hu, rfl⟩ := hx
+      cases y with
+      | plain w => cases y' with
+        | plain w' => exact ⟨u, hu, rfl⟩
+        | wt _ => simp [PadRel] at hy
+      | wt e => cases y' with
+        | plain _ => simp [PadRel] at hy
+        | wt e' =>
+          obtain ⟨d, hd, hdf, rfl⟩ := hy
+          simp only [reweight, List.length_append, hu, hd]
+          by_cases hl : v.length = e.length
+          · have hl' : v.length + p = e.length + p := by omega
+            simp only [ne_eq, hl, not_true_eq_false, if_false, PadRes, PadRel]
+            refine ⟨List.zipWith (fun x (c : Cell) => (x, c.2)) u d, by simp [hu, hd], ?_, List.zipWith_append hl⟩
+            intro z hz
+            obtain ⟨i, hi, rfl⟩ := List.getElem_of_mem hz
+            simp only [List.getElem_zipWith]
+            exact hdf _ (List.getElem_mem _)
+          · simp [hl, PadRes]
+
+theorem padRes_bind {p : Nat} {r r' : Except Err MT} {k k' : MT → Except Err MT}
+    (h : PadRes p r r') (hk : ∀ x x', PadRel p x x' → PadRes p (k x) (k' x')) :
+    PadRes p (r >>= k) (r' >>= k') := by
+  cases r <;> cases r' <;> simp_all [PadRes, bind, Except.bind]
+
 end LeaspyVerif.Masked
